@@ -111,7 +111,13 @@ func runCheck(prop, tier string, seed int) (int, *Evidence) {
 		timeout = 60 * time.Second
 	}
 	dir, _ := os.MkdirTemp("", "vcheck-")
-	defer os.RemoveAll(dir)
+	if k := os.Getenv("VCHECK_KEEP"); k != "" {
+		// development: keep the queries of the obligations that were not discharged
+		os.MkdirAll(k, 0o755)
+		dir = k
+	} else {
+		defer os.RemoveAll(dir)
+	}
 	stats := &SolveStats{BySolver: map[string]int{}}
 
 	var results []*FuncResult
